@@ -13,3 +13,59 @@ pub(crate) fn havoc(r: &mut PacketReader<'_>) {
     kani::assume(r.read_bytes <= r.buffer.len());
     r.packet_length = if kani::any() { Some(kani::any()) } else { None };
 }
+
+// ---------------------------------------------------------------------------------------------
+// Stub for `PacketReader::received_packet` used by the handshake harnesses: the decode itself is
+// the subject of c08_dec_connack_* (real decoder, symbolic bytes).  With the real decoder inside
+// the handshake the lazily decoded (empty) property block re-enters the 27-way property decoder on
+// infeasible paths and the harness does not finish (900 s).
+// ---------------------------------------------------------------------------------------------
+use crate::packets::{ConnAck, Disconnect};
+use crate::properties::{Properties, Property};
+use crate::reason_codes::ReasonCode;
+
+/// 0 ConnAck, 1 Disconnect, 2 another packet (PingResp), 3 decode error
+pub(crate) static mut RP_KIND: u8 = 0;
+pub(crate) static mut RP_SP: bool = false;
+pub(crate) static mut RP_RC: u8 = 0;
+pub(crate) static mut RP_PROPS: [Property<'static>; 2] = [Property::ReceiveMaximum(1), Property::ReceiveMaximum(1)];
+pub(crate) static mut RP_NPROPS: usize = 0;
+pub(crate) static mut RP_CALLS: u8 = 0;
+
+#[allow(static_mut_refs)]
+pub(crate) fn st_received_packet<'a, 'b>(r: &'b mut PacketReader<'a>) -> Result<ReceivedPacket<'b>, Error>
+where
+    'a: 'a,
+{
+    unsafe {
+        RP_CALLS += 1;
+        // like the real one: the packet is consumed
+        r.reset();
+        match RP_KIND {
+            0 => Ok(ReceivedPacket::ConnAck(ConnAck {
+                session_present: RP_SP,
+                reason_code: ReasonCode::from(RP_RC),
+                properties: Properties::from_slice(&RP_PROPS[..RP_NPROPS]),
+            })),
+            1 => Ok(ReceivedPacket::Disconnect(Disconnect::with_reason(ReasonCode::from(RP_RC)))),
+            2 => Ok(ReceivedPacket::PingResp),
+            _ => Err(Error::MalformedPacket),
+        }
+    }
+}
+
+/// Stub for `PacketReader::take_packet`: an arbitrary decode outcome (decoding itself: c08_dec_*).
+#[allow(static_mut_refs)]
+pub(crate) fn st_take_packet<'a, 'b>(r: &'b mut PacketReader<'a>) -> Result<(usize, ReceivedPacket<'b>), Error>
+where
+    'a: 'a,
+{
+    unsafe {
+        RP_CALLS += 1;
+        r.reset();
+        match RP_KIND {
+            2 => Ok((2, ReceivedPacket::PingResp)),
+            _ => Err(if kani::any() { Error::MalformedPacket } else { Error::Deserialization(crate::de::Error::Custom) }),
+        }
+    }
+}
